@@ -7,6 +7,7 @@ PLANS = {
     "C01": {"profiles": ["c01_faultfree", "c01_lossy"], "quick": 6000, "thorough": 120000},
     "C03": {"profiles": ["c03_gc_twin"], "quick": 800, "thorough": 40000},
     "C04": {"profiles": ["c04_sequential", "c04_sequential", "c04_parallel"], "quick": 5400, "thorough": 100000},
+    "C07": {"profiles": ["c07_clean_twin"], "quick": 4000, "thorough": 100000},
     "C09": {"profiles": ["c09_lossless", "c09_lossless", "c09_hostile"], "quick": 3300, "thorough": 100000, "min_candidates": 300,
             "min_once_prefixes": ["panicked:", "snapshot_round_trip_changes_garbage_len"]},
     "C13": {"profiles": ["c13_intruder", "c13_intruder", "c13_keys"], "quick": 4500, "thorough": 100000},
@@ -16,7 +17,7 @@ PLANS = {
     "C18": {"profiles": ["c18_yson"], "quick": 1200, "thorough": 80000},
     "C10": {"profiles": ["c10_compaction"], "quick": 3000, "thorough": 60000},
     "C11": {"profiles": ["c11_lifecycle"], "quick": 8000, "thorough": 200000},
-    "C19": {"profiles": ["c19_matrix"], "quick": 3200, "thorough": 6400, "enumerate": True},
+    "C19": {"profiles": ["c19_matrix"], "quick": 6400, "thorough": 12800, "enumerate": True},
     "C20": {"profiles": ["c20_change_cache", "c20_snapshot_cache"], "quick": 6000, "thorough": 120000},
     "C14": {"profiles": ["c14_undo_exact", "c14_undo_approx"], "quick": 5000, "thorough": 100000},
     "C12": {"profiles": ["c12_presence", "c12_presenceless"], "quick": 1000, "thorough": 100000},
@@ -135,16 +136,16 @@ META = {
     "C11": {"level": "Raw protocol clients (generated Connect client, hand-built packs from real Documents) issue Activate/Attach/PushPull/Detach/Remove/Deactivate in any state for 2 clients x 2 documents; a reference state machine written from docs/design/document-client-lifecycle.md predicts accept/reject; rejected calls must not grow any log; after detach/deactivate no stored version vector may lower the minimum; removed documents answer with the removed flag and store nothing.", "note": _common + "; calls on a document key after one of its documents was removed are only checked for 'stores nothing' (the document does not specify them)"},
     "C12": {"level": "Presence-heavy sessions with snapshot pulls, re-attach, rejoin, vanish, housekeeping deactivation, on presence-enabled and presenceless documents, with late attachers that disagree with the document's setting: AllPresences() equal on all replicas and keyed by exactly the clients the server counts as attached; presenceless: no presence in any stored row, response or snapshot.", "note": _common},
     "C14": {"level": "Local sessions of one client (the property's quantifier: no remote changes) with single-edit Updates from the content alphabet plus approximate kinds, random well-nested Undo/Redo: a content stack predicts the canonical content (text as attribute runs, trees as XML) after every Undo/Redo of an exact kind; Undo/Redo never fail; clone == root; the final synchronisation succeeds.", "note": _common + "; five undo defects of the pinned tree are listed as known; undo after synchronisation/GC is outside this check (see C15)"},
+    "C07": {"level": "Differential check inside C01/C02-style sessions (remote changes, snapshot-fed rebuilds with thresholds 2-500, GC on or entirely off, long offline stretches, moves, splits): before EVERY local Update of a replica a twin is built - a brand-new Document that receives only the replica's visible content (YSON export/import; no tombstones, no split nodes, no dead array slots, no history) - and the same editing calls (same paths, same indices, resolved by the same executor against the visible state: object set/delete/create, array add/insert/delete/set/move*, text edit/style with UTF-16 and surrogate pairs, counters, tree insert/delete/style by index and by path) are applied to both; afterwards the canonical visible content (text as attribute runs, trees as XML) must be equal, and a call that succeeded on the replica must succeed on the twin. Plus plain lookups after every update and sync: Array.Len() == number of visible elements, Get(i) walks them in order, text length == sum of visible runs (UTF-16), tree Len() == size computed from its XML.", "note": _common + "; the reference is the implementation itself on a tombstone-free reconstruction, NOT an independent re-implementation of text/array/tree semantics: a defect that also shows on clean structures is not seen (the property's rationale leaves clean structures to the unit tests); the dedup counter is excluded (its state does not survive the export: finding of C18)"},
     "C09": {"level": "LOSSLESS half (profile c09_lossless, C01-style sessions with snapshots, GC, lost messages): every pack that crosses the simulated wire is decoded and re-encoded and must come out equal (proto.Equal); every change the server stored must decode (ChangeInfo.ToChange) to the change that was pushed; at every sync point every replica's document goes through SnapshotToBytes/BytesToSnapshot and the result must have the same content, the same GarbageLen and the same LOGICAL STRUCTURE - every node of every text, tree, array and object with identity, tombstone ticket, insertion links (insPrev/insNext, InsPrevID/InsNextID), merge stamps and attribute history, read by reflection over the CRDT node types (index structures and caches excluded), so a field the encoder forgets is a difference - and a second round trip must be a fixed point. HOSTILE half (profile c09_hostile): the same sessions with the fault kind CORRUPTION - request bodies, response bodies and stored bytes (operations of a change, snapshots, plain and compressed) are mutated at byte level (flip, truncate, splice, drop, length prefix) and at structure level (a populated field of the decoded protobuf at any depth, also inside nested element encodings, is cleared / zeroed / duplicated / truncated), and mutated real encodings are handed to BytesToSnapshot / BytesToObject / BytesToArray / BytesToTree / FromChangePack and, when accepted, used. Decided there: the server process survives and every call returns; recovered panics are collected and reported at the end of the run.", "note": _common + "; on the pinned tree hostile bytes that still decode reach executing code unvalidated and panic at more than 15 sites (known finding hostile-bytes-reach-executing-code, a broad one: a NEW panic site in a decoder is therefore not told apart from the known ones - seeded change C09-1 is missed); the fix 54b7dee2 removed the one consequence that killed the process"},
     "C13": {"level": "An intruder inside ordinary editing sessions: project 0 (victim, owner user0) runs a C01-style session with real clients, snapshots and automatic revisions; project 1 belongs to another user. Between the victim's steps the intruder calls a procedure of YorkieService / AdminService / ClusterService - the list is read from the generated service descriptors at run time, requests are filled field by field (by field name) with the victim's real client id, document id, document key, project id/name, revision id, or with its own client/document plus one identifier of the victim - under every credential it can present {none, garbage, its own project key, its own user token, its own project secret, its public key as secret; none/wrong cluster secret}. Oracles per call: (1) every stored row of every memdb table that is not the intruder's own (project, user, clients, documents and their rows) is byte-identical before and after; (2) a call that names something of the victim or presents no valid credential is refused, with not-found / unauthenticated / permission-denied (failed-precondition and invalid-argument only if the twin call gets the same); (3) existence is not revealed: the twin call naming identifiers that exist nowhere gets the same code; (4) no answer carries a value of the victim's documents; (5) no stream is opened, no handler panics, every call returns; plus the C01 oracles on the victim's session (identical document keys in two projects are different documents).", "note": _common + "; which principal an admin handler reads (project or user) is extracted from admin_server.go at build time; the auth webhook is not configured; a credential of the wrong kind makes admin handlers panic on the pinned tree (known finding); account enumeration through LogIn/ChangePassword (unauthenticated vs not-found) is outside the property (it speaks of clients and documents) and not judged"},
     "C16": {"level": "Step-level engine: after a sequential set-up all clients talk to the real server AT THE SAME TIME (1-3 syncs each, push-only syncs, detach+re-attach, explicit deactivation, duplicated requests with both copies in flight) together with admin compaction, the housekeeping deactivation body after a 25 h silence and the server's own background goroutines (snapshot writer). Every task runs on its own goroutine; exactly one runs at a time and gives control back at every storage call, every pkg/locker operation and every spin on an instrumented mutex (build overlay, nothing written to /repo); a seeded scheduler picks who continues. The scheduler keeps a model of the named RW locks (writer, readers, announced writers = Go's writer preference) and only resumes a task whose lock request the model admits: a state with unfinished tasks and nobody admissible is a DEADLOCK, reported with the wait-for relation; every acquisition is compared with the documented order doc -> pull -> attachment -> push (lock-order oracle); every request must return; afterwards the C01/C04/C05 oracles (convergence incl. server rebuild, conservation, log shape, clone == root, no un-faulted failure) are evaluated. A death of the process by the Go runtime (fatal error: unlock of unlocked mutex, concurrent map access, panic on a server goroutine) is reproduced alone, minimised out of process and reported as a violation.", "note": _common + "; NOT covered: the race-detector half of the property (the scheduler's hand-off orders all memory accesses, so unsynchronised accesses between two yield points are invisible - seeded change C16-1 is out of reach), watch streams inside the same sections (C17 drives pubsub separately)"},
     "C17": {"level": "The real server/backend/pubsub package (PubSub, Subscriptions, BatchPublisher, cmap) under the step-level engine: up to 4 subscribers and 3 publishers on one document key Subscribe / Publish / Unsubscribe concurrently; the package's mutexes are rewritten in the build overlay into TryLock-spin-yield, so a seeded scheduler decides every interleaving at every mutex acquisition; simulated time (batch window, publish time-out) passes only when the scheduler says so. Consumers are prompt (drain after every step) or stalled. Oracles over the recorded history (events stamped with the scheduler's step number): a subscriber whose Subscribe returned before Publish was invoked and whose Unsubscribe was invoked after Publish returned - and that drains - receives an event of that publisher or a closed channel within a bounded linger (8 simulated seconds); nothing is received after Unsubscribe returned; the subscription map is empty once all have unsubscribed; no panic (send on closed channel) - also on the publisher's own goroutine (process death is reproduced and reported).", "note": "the pubsub package runs alone (no RPC layer, no WatchDocument stream); channel operations are not yield points (only mutex acquisitions, timers and task starts are); sampling, not proof"},
-    "C19": {"level": "The five pair matrices (ranges x op1 x op2) are extracted at build time from test/complex/tree_concurrency_test.go of the CURRENT tree (data and op.run methods are upstream's, the runner is the simulator): every one of the 1592 cells x both sync orders is one simulated run with two change-fed clients and a third client fed by snapshot that edits on top of it; oracles: ToXML and Marshal equal on all three and on the server's rebuild, clone == root, no step fails. The quick tier already sweeps the whole matrix (3184 runs, ~20 s).", "note": _common + "; exhaustive over the declared matrix, exploration beyond it is C01's job", "technique": "deterministic simulation, exhaustive sweep of a finite matrix of two-client schedules"},
+    "C19": {"level": "The five pair matrices (ranges x op1 x op2) are extracted at build time from test/complex/tree_concurrency_test.go of the CURRENT tree (data and op.run methods are upstream's, the runner is the simulator): every one of the 1592 cells x both sync orders x both assignments of the two operations to the two clients (equal lamports: the author's id decides which operation is later) is one simulated run with two change-fed clients and a third client fed by snapshot that edits on top of it; oracles: ToXML and Marshal equal on all three and on the server's rebuild, clone == root, no step fails. The quick tier already sweeps the whole matrix (6368 runs, ~40 s).", "note": _common + "; exhaustive over the declared matrix, exploration beyond it is C01's job", "technique": "deterministic simulation, exhaustive sweep of a finite matrix of two-client schedules"},
     "C20": {"level": "(a) the real mongo.ChangeStore is driven through the call protocol of mongo/client.go (ReplaceOrInsert+ExpandRange by writers, EnsureChanges+ChangesInRange by readers, eviction, fetch errors, changes stored by other nodes) against a ground-truth table with presence-only holes: served range == table range, the fetcher is never asked for a covered sequence number; (b) C02-style sessions with frequent rebuild steps: BuildInternalDocForServerSeq(s) at the head and at earlier points with the cache as it is == after Purge() == replicas holding the same vector, interleaved with pushes, purges, tiny caches, restarts.", "note": _common + "; the Mongo collection and the glue in mongo/client.go are a stub (a change there is not seen); pkg/cache LRU expiry is not covered"},
     "C18": {"level": "At sync points and at quiescence every replica's document goes through FromCRDT -> Marshal -> Unmarshal -> SetYSON into a fresh Document -> FromCRDT; generated YSON literals of every element type enter through SetYSONElement/WithInitialRoot; a revision created mid-run is restored at the end and must give every replica the recorded content; after all clients detached the real compaction must succeed and keep the content.", "note": _common},
 }
 
 NOT_CLAIMED = {
     "C15": "not claimed: on the pinned tree undo/redo combined with synchronisation violates the property in many distinct ways (sync failures 'child not found' / 'not applicable datatype' / 'node not found', divergence, upstream's own remote-redo divergence); the simulator profile exists (sim/props_c14.go, c15_undo_sync) and finds them within seconds, but a check that is quiet on the unchanged tree would have to list a finding so broad that it decides nothing - see DESIGN.md section 9",
-    "C07": "not claimed: the sequential reference models (string/slice/map/XML) were not built in the time available; a partial canonical-content model exists only inside the C14 oracle",
 }
